@@ -122,6 +122,21 @@ fn cases(args: &Args, rng: &mut Rng) -> Vec<C12Case> {
         &[(0, 2, 20_000, 0), (0, 2, 30, 0), (0, 2, 40, 0)], "A.DATA.2.drop", (Some(5000), Some(1000)), vec![], false));
     v.push(mk("pr-with-reliable-sibling", vec![spec(2, Kind::RexUnord, true, 0), spec(1, Kind::RelOrd, true, 0)], vec![spec(2, Kind::RexUnord, true, 0), spec(1, Kind::RelOrd, true, 0)],
         &[(0, 2, 3000, 0), (0, 1, 50, 0), (0, 1, 60, 0)], "A.DATA.1.drop", (Some(1000), Some(5000)), vec![], false));
+    // FORWARD-TSN lost together with the chunk it skips; FORWARD-TSN across the TSN wrap (initial TSN 0)
+    v.push(mk("pr-forward-tsn-lost", vec![spec(2, Kind::RexUnord, true, 0), spec(1, Kind::RelOrd, true, 0)], vec![spec(2, Kind::RexUnord, true, 0), spec(1, Kind::RelOrd, true, 0)],
+        &[(0, 2, 100, 0), (0, 1, 50, 0), (0, 1, 60, 0)], "A.DATA.1.drop", (Some(7000), Some(5000)), vec![], false));
+    v.push(mk("pr-forward-tsn-across-wrap", vec![spec(2, Kind::RexUnord, true, 0), spec(1, Kind::RelOrd, true, 0)], vec![spec(2, Kind::RexUnord, true, 0), spec(1, Kind::RelOrd, true, 0)],
+        &[(0, 2, 3000, 0), (0, 1, 50, 0), (0, 1, 60, 0)], "A.DATA.1.drop", (Some(0), Some(5000)), vec![], false));
+    v.push(mk("pr-ordered-rexmit2-loss", vec![spec(2, Kind::RexOrd, true, 2), spec(1, Kind::RelOrd, true, 0)], vec![spec(2, Kind::RexOrd, true, 2), spec(1, Kind::RelOrd, true, 0)],
+        &[(0, 2, 10, 0), (0, 2, 3000, 0), (0, 1, 50, 0), (0, 2, 20, 0), (0, 1, 60, 0)], "A.TSN.1.dropn4+A.TSN.2.dropn1", (Some(0xFFFF_FFFF), Some(9)), vec![], false));
+    if args.tier_thorough {
+        // SSN wrap: more than 65 536 messages on one ordered channel (and TSN wrap on the way)
+        let plan: Vec<(usize, u16, usize, u8)> = (0..66_000).map(|i| (0usize, 1u16, 4 + (i % 3), 0u8)).collect();
+        let mut c = mk("ssn-wrap", vec![spec(1, Kind::RelOrd, true, 0)], vec![spec(1, Kind::RelOrd, true, 0)], &plan, "A.DATA.7.drop+B.SACK.3.drop", (Some(0xFFFF_F000), None), vec![], false);
+        c.case.deadline = Duration::from_secs(120);
+        c.case.cfg[0].max_buffered = 0;
+        v.push(c);
+    }
     let nrand = if args.tier_thorough { 150 } else { 8 };
     for r in 0..nrand {
         let nch = rng.range(1, 6) as usize;
